@@ -17,8 +17,8 @@ RULE = ('stream mixed: histories of NetFlow v5/v9/IPFIX and sFlow datagrams thro
 TRUSTED = ['Coq 8.16.1 kernel (coqc)', 'extraction + ocaml/main.ml glue', 'Go harness harness/fmt.go (oracles: json.Valid, '
            'streaming key decoder, protodelim.UnmarshalFrom loop, proto.Unmarshal), bin/engine.py',
            'modelled, not verified: producer/proto/messages.go (formatter), format/*; protobuf-go and encoding/json are trusted libraries']
-ASSUMPTIONS = ['the default configuration is modelled byte for byte (Model/Render.v, name tables regenerated from render.go / flow.pb.go); other configurations (renames, non-default renderers incl. datetime, custom fields) are judged by json.Valid and cross-format agreement on the implementation',
-               'JSON escaping is modelled for ASCII; bytes >= 0x80 are judged by json.Valid only']
+ASSUMPTIONS = ['JSON string escaping is modelled for arbitrary bytes (Model/Json.v:esc_string_utf8: UTF-8 table, U+2028/U+2029, U+FFFD for ill-formed bytes)', 'the default configuration is modelled byte for byte (Model/Render.v, name tables regenerated from render.go / flow.pb.go); other configurations (renames, non-default renderers incl. datetime, custom fields) are judged by json.Valid and cross-format agreement on the implementation',
+               ]
 STREAMS = [dict(name='mixed', stream=0, n=dict(quick=150, thorough=3000), timeout=120.0),
            dict(name='jsonstr', stream=1, n=dict(quick=2000, thorough=40000))]
 FIELDS = ['type', 'time_received_ns', 'sequence_num', 'sampling_rate', 'sampler_address', 'time_flow_start_ns',
@@ -87,6 +87,28 @@ def run(chk):
     lines += ['fmtstr =%02x%02x' % (a, b) for a in special for b in special]
     rs = random.Random(chk.seed + 77)
     lines += ['fmtstr =' + bytes(rs.choice(special + list(range(32, 127))) for _ in range(rs.randrange(0, 300))).hex() for _ in range(300)]
+    # arbitrary bytes: every single byte 0..255, every lead byte with every second byte (all 2-byte strings whose
+    # first byte is >= 0xc0: well-formed, overlong, truncated, stray continuation), structured 3-/4-byte sequences around
+    # the boundaries of the UTF-8 table (e0 a0, ed 9f/a0 surrogates, f0 90, f4 8f/90, U+2028/U+2029, U+FFFD) and random bytes
+    lines += ['jsonstr =%02x' % b for b in range(128, 256)] + ['fmtstr =61%02x62' % b for b in range(128, 256)]
+    lines += ['jsonstr =%02x%02x' % (a, b) for a in range(0xc0, 0x100) for b in range(0x70, 0x100, 1)]
+    edge3 = [(0xe0, 0x9f), (0xe0, 0xa0), (0xe0, 0xbf), (0xe1, 0x80), (0xec, 0xbf), (0xed, 0x80), (0xed, 0x9f), (0xed, 0xa0), (0xee, 0x80),
+             (0xef, 0xbf), (0xe2, 0x80), (0xe2, 0x81), (0xef, 0xbe)]
+    for a, b in edge3:
+        for c in (0x7f, 0x80, 0xa7, 0xa8, 0xa9, 0xaa, 0xbd, 0xbf, 0xc0):
+            lines.append('jsonstr =41%02x%02x%02x42' % (a, b, c))
+            lines.append('fmtstr =%02x%02x%02x' % (a, b, c))
+        lines.append('jsonstr =%02x%02x' % (a, b))
+    edge4 = [(0xf0, 0x8f), (0xf0, 0x90), (0xf0, 0xbf), (0xf1, 0x80), (0xf3, 0xbf), (0xf4, 0x80), (0xf4, 0x8f), (0xf4, 0x90), (0xf5, 0x80)]
+    for a, b in edge4:
+        for c in (0x7f, 0x80, 0xbf, 0xc0):
+            for d in (0x7f, 0x80, 0xbf, 0xc0):
+                lines.append('jsonstr =%02x%02x%02x%02x7a' % (a, b, c, d))
+        lines.append('jsonstr =%02x%02x%02x' % (a, b, 0x80))
+    for _ in range(400):
+        n = rs.randrange(0, 40)
+        lines.append('jsonstr =' + bytes(rs.choice([rs.randrange(256), rs.randrange(0x80, 0x100), rs.randrange(0xc2, 0xf5), 0xe2, 0x80, 0xa8, 0xa9]) for _ in range(n)).hex())
+        lines.append('fmtstr =' + bytes(rs.randrange(256) for _ in range(rs.randrange(0, 60))).hex())
     bad = run_scope_b(chk, me, lines, 'json-bytes', {})
     # a string value the formatter wrote that is not the JSON escaping of the bytes is a property violation
     for a, o, m in list(bad):
@@ -94,7 +116,7 @@ def run(chk):
             chk.record('scopeA-fmtstr', dict(concrete=True, input=a, impl=o, expected=m,
                        what='a string-rendered custom field is not written as the well-formed JSON string of its bytes'), {})
             bad.remove((a, o, m))
-    chk.exhaustive.append('all 128 single ASCII bytes and all pairs of 16 special characters through encoding/json')
+    chk.exhaustive.append('all 256 single bytes, all 2-byte strings with a lead byte >= 0xc0 and a second byte >= 0x70, all pairs of 16 special characters through encoding/json')
     resolve_scope_b(chk, me, bad, 'json-bytes', {}, None, None)
     # renderer sweep under the default configuration: JSON and text BYTES of the implementation vs Model/Render.v.
     # IPFIX records whose addresses run through every pattern of zero / non-zero 16-bit groups (all 256, RFC 5952
